@@ -357,7 +357,7 @@ static void one_execution( const Case& c, const std::vector< int >& pre, bool ve
             else {
                const int b = begins.back();
                begins.pop_back();
-               const int ak = t.amode ? act_kind_of( c.cfg.fam, t.rule ) : 0;
+               const int ak = ( t.amode && t.fam < 8 ) ? act_kind_of( t.fam, t.rule ) : 0;
                if( ak == 1 || ak == 3 ) want.push_back( { t.rule, b, t.pos } );
                if( ak == 2 || ak == 4 ) want.push_back( { t.rule, b, -1 } );
             }
